@@ -44,7 +44,7 @@ INV_COMMON = [
     Clause("unix.send/loop2.invariant.sys", "48 <= sys_sendbuf() <= isize::MAX && data@.len() <= isize::MAX"),
     Clause("unix.send/loop2.invariant.sendbuf_range", "(1000 <= sendbuf_size || sendbuf_size == sys_sendbuf()) && sendbuf_size <= sys_sendbuf()", ["C13", "C18"]),
     Clause("unix.send/loop2.invariant.pos_le_len", "byte_position <= data.len()", ["C18", "C01"]),
-    Clause("unix.send/loop2.invariant.fds", "fds@ == fds_in.push(ded) && fds@.len() <= MAX_FDS_IN_CMSG", ["C04", "C15", "C13", "C05"]),
+    Clause("unix.send/loop2.invariant.fds", "fds@ == fds_in.push(ded) && fds@.len() <= MAX_FDS_IN_CMSG", ["C04", "C15", "C13", "C05", "C02", "C01"]),
     Clause("unix.send/loop2.invariant.kernel_frame",
            "k1.peer == k0.peer.insert(dedicated_tx.fd.0, ded) && k1.q == k0.q.insert(ded, Seq::empty()) && k1.sock.contains(ded)\n"
            "&& !k0.q.dom().contains(ded) && !k0.peer.dom().contains(dedicated_tx.fd.0)\n"
